@@ -30,6 +30,20 @@ def call(case, api='func'):
         return None, e
 
 
+def call_twice_shared(case):
+    """The caller re-uses its option dictionaries: two calls with the SAME objects.  Returns the second table (or None)."""
+    from bycycle.features import compute_features
+    kw = {k: copy.deepcopy(case[k]) for k in OPT_KEYS if k in case}
+    out = None
+    try:
+        with quiet():
+            for _ in range(2):
+                out = compute_features(np.array(case['sig'], copy=True), case['fs'], tuple(case['f_range']), **kw)
+        return out
+    except Exception:          # noqa: BLE001 - totality is judged on the first (independent) call
+        return None
+
+
 def in_domain(case):
     others = []
     bk = case.get('burst_kwargs')
@@ -86,6 +100,19 @@ def run_case(sh, case, prop, api='func', driver='generated', nontrivial=None, to
             monitors.check_rows_against_reference(df, np.asarray(case['sig']), case['fs'], tuple(case['f_range']),
                                                   case.get('center_extrema', 'peak'),
                                                   fek_user if fek_user is not None else {'filter_kwargs': {'n_cycles': 3}}, 'Bycycle.fit')
+    if api == 'func' and df is not None and prop == 'C01' and case.get('reuse_options') and case.get('return_samples', True):
+        # a second call with the same option objects must still honour the options as the user wrote them
+        df2 = call_twice_shared(case)
+        attach.take_violations()
+        if df2 is not None and monitors.centre_of(df2) is not None:
+            fek_user = case.get('find_extrema_kwargs')
+            with quiet():
+                monitors.check_structure(df2, len(case['sig']), (fek_user or {}).get('boundary', 0), 'second compute_features call sharing the option dicts')
+                monitors.check_rows_against_reference(df2, np.asarray(case['sig']), case['fs'], tuple(case['f_range']),
+                                                      case.get('center_extrema', 'peak'),
+                                                      fek_user if fek_user is not None else {'filter_kwargs': {'n_cycles': 3}},
+                                                      'second compute_features call sharing the option dicts')
+            sh.note('reused_option_dicts')
     got = attach.take_violations()
     vs += [v for v in got if v['property'] in (prop, '_monitor')]
     for v in got:
